@@ -75,10 +75,72 @@ func forgeCases(c *harness.C) []harness.Case {
 				}
 				c.Outcome(fmt.Sprintf("forge|%d|%d|%d|%s", n, t, l, nm))
 			}
-			// control: the honest value is accepted through the same generated function
-			{
-				honest, _ := w.pr.Blind(msg)
-				_ = honest
+			ps.VerifChosenMPrime = nil
+			// the ciphertexts are altered BEFORE the proof is computed, so the challenge covers the
+			// altered values and every response is honest: only the verification equations
+			// themselves can reject such a request
+			type tamper struct {
+				name string
+				f    func(a, b []*math.G1)
+			}
+			tampers := []tamper{{"control", nil}}
+			for i := 0; i <= l; i++ {
+				i := i
+				tampers = append(tampers,
+					tamper{fmt.Sprintf("b[%d]-moved", i), func(a, b []*math.G1) {
+						if i < len(b) {
+							b[i].Add(cv.GenG1)
+						}
+					}},
+					tamper{fmt.Sprintf("a[%d]-moved", i), func(a, b []*math.G1) {
+						if i < len(a) {
+							a[i].Add(cv.GenG1)
+						}
+					}},
+					tamper{fmt.Sprintf("a[%d]-and-b[%d]-moved", i, i), func(a, b []*math.G1) {
+						if i < len(a) && i < len(b) {
+							a[i].Add(cv.GenG1)
+							b[i].Add(cv.GenG1)
+						}
+					}})
+			}
+			for _, tp := range tampers {
+				ps.VerifTamper = tp.f
+				var req []byte
+				func() {
+					defer func() { recover() }()
+					σ, _ := ps.VerifBlindChosen(&pp, cv, m)
+					req = σ.Bytes()
+				}()
+				ps.VerifTamper = nil
+				if req == nil {
+					c.Add("forgeries_not_buildable", 1)
+					continue
+				}
+				for _, id := range cryptolib.IDs(n) {
+					c.Add("evaluations", 1)
+					_, err := func() (r []byte, err error) {
+						defer func() {
+							if rec := recover(); rec != nil {
+								err = fmt.Errorf("panic: %v", rec)
+							}
+						}()
+						return w.signers[id].Sign(context.Background(), req)
+					}()
+					rp := map[string]interface{}{"n": n, "t": t, "L": l, "object": "request", "perturbation": "ciphertext-altered-before-proof-" + tp.name}
+					if tp.f == nil {
+						if err != nil {
+							// the generated copy no longer produces what the signer accepts: the
+							// forged requests of this case prove nothing (recorded, not a verdict)
+							c.Add("control_rejected", 1)
+						}
+						continue
+					}
+					if err == nil {
+						c.Violation("altered-is-rejected", "c09-ps-accepts:request:ciphertext-altered-before-proof", fmt.Sprintf("%s: signer %d signed a request whose ciphertext was altered before the proof was computed over it (%s): the proof's responses are honest, the challenge covers the altered value, yet the verification equations let it pass", what, id, tp.name), rp)
+					}
+				}
+				c.Outcome(fmt.Sprintf("forge-tamper|%d|%d|%d|%s", n, t, l, tp.name))
 			}
 			c.Add("executions", 1)
 		}})
